@@ -1,6 +1,7 @@
 mod common;
 mod histex;
 mod model;
+mod polmat;
 mod probes;
 mod tracing;
 mod wire;
